@@ -717,4 +717,17 @@ example : svOnly 2 (some [7, 9]) (assignments
     ([.call true (.ok (.scalar 9)) none [] 1 [[]], .setSV (some [9, 7, 1]), .setSV (some [9, 7])] : List (HOp Int)))
     = some [9, 7] := by rfl
 
+/-- **History theorem for `DiscreteRV`.**  After any sequence `h` of assignments to `.q` and draws,
+    a further `draw` with uniforms `us` returns `drvDraw q' us` where `q'` is the *last assigned* vector
+    (`lastQ`: the initial one if none was assigned) — independent of every earlier draw and of the
+    uniforms used in them; `Q` is never anything but `cumsum q'`. -/
+theorem drv_history (q0 : List α) [Add α] [LT α] [DecidableLT α] (h : List (DOp α)) (us : List α) :
+    runD q0 (h ++ [.draw us]) = runD q0 h ++ [some (drvDraw (lastQ q0 h) us)] ∧
+    drvDraw (lastQ q0 h) us = drvDrawQ (cumsum (lastQ q0 h)) us := by
+  rw [runD_append, finalQ_eq_lastQ]
+  exact ⟨rfl, rfl⟩
+
+example : runD ([1, 1] : List Int) [.draw [0, 1], .setQ [0, 3], .draw [0, 1]]
+    = [some (some [0, 1]), none, some (some [1, 1])] := by decide +kernel
+
 end QE.C10
